@@ -46,7 +46,7 @@ class C10Machine(Machine):
         "transitive_curie_remap_applied", "uri_remap_applied", "rewire_applied",
         "chain_merged_later_into_earlier", "discover_with_known_uris", "lineage_depth_ge_3",
         "sub_nonempty", "mutation_right_after_derivation", "chain_same_converter_twice",
-        "curie_remap_applied", "large_root", "followup_add_with_pattern", "same_record_followed_through_lineage", "empty_mapping", "empty_prefix_subset", "same_derivation_again", "alternating_lookups", "intermediate_converter_garbage_collected", "same_derivation_same_result", "subset_given_as_str", "root_with_more_than_256_records", "baseline_without_any_query", "converter_first_queried_after_it_was_an_input", "fresh_strings_asked_of_derived_first",
+        "curie_remap_applied", "large_root", "followup_add_with_pattern", "same_record_followed_through_lineage", "empty_mapping", "empty_prefix_subset", "same_derivation_again", "alternating_lookups", "intermediate_converter_garbage_collected", "same_derivation_same_result", "subset_given_as_str", "root_with_more_than_256_records", "baseline_without_any_query", "converter_first_queried_after_it_was_an_input", "fresh_strings_asked_of_derived_first", "root_of_a_converter_subclass",
     ]
 
     @classmethod
@@ -215,7 +215,16 @@ class C10Machine(Machine):
     def _recs(self, h):
         if self.entries[h].conv is None:
             return []
-        return [observe.record_dump(r) for r in self.entries[h].conv.records]
+        # in a canonical order (records by prefix, synonyms sorted): what the generators draw from must not
+        # depend on the order in which a library happens to keep things (it may follow the iteration order of
+        # a set the caller passed, which follows the interpreter's hash seed)
+        out = []
+        for r in self.entries[h].conv.records:
+            d = observe.record_dump(r)
+            d["prefix_synonyms"] = sorted(d["prefix_synonyms"])
+            d["uri_prefix_synonyms"] = sorted(d["uri_prefix_synonyms"])
+            out.append(d)
+        return sorted(out, key=observe.record_key)
 
     def _gen_new(self, rng):
         cfg = self.config
@@ -224,7 +233,10 @@ class C10Machine(Machine):
             n = rng.choice([128, 129, 255, 256, 257, 258, 300])
         recs = gen_valid_records(rng, cfg["curie_pool"], cfg["uri_pool"], n, p_repeat=0.1)
         return {"op": "new", "out": self._fresh_id(), "records": recs, "delimiter": rng.choice(cfg["delimiters"]),
-                "container": rng.choice(tokens.CONTAINERS)}
+                "container": rng.choice(tokens.CONTAINERS),
+                # "all strict input converters": also converters of a SUBCLASS (the documented reason to
+                # subclass is the standardize_identifier hook; the other one has a constructor of its own)
+                "cls": rng.choice(["base", "base", "base", "base", "base", "hooked", "own_init"])}
 
     def _gen_chain(self, rng):
         k = rng.choice([1, 2, 2, 3, 4, 5])
@@ -464,6 +476,27 @@ class C10Machine(Machine):
     #   cold: the structure only, no query made at all since the converter was created / last modified.
     # A re-check reads the structure first (nothing but the judged calls happened since the baseline),
     # then asks the queries, then settles a new warm baseline.
+    def _root_class(self, kind):
+        c = self.curies
+        memo = self.__dict__.setdefault("_classes", {})
+        if kind not in memo:
+            if kind == "hooked":
+                class Hooked(c.Converter):
+                    def standardize_identifier(self, standard_prefix, identifier):
+                        return identifier.removeprefix(standard_prefix + self.delimiter)
+
+                memo[kind] = Hooked
+            elif kind == "own_init":
+                class OwnInit(c.Converter):
+                    def __init__(self, records, tag="t", **kwargs):
+                        super().__init__(records, **kwargs)
+                        self.tag = tag
+
+                memo[kind] = OwnInit
+            else:
+                memo[kind] = c.Converter
+        return memo[kind]
+
     def _answers(self, conv):
         ans = observe.answers(conv, self.strings, self.pairs, full=False)
         ans["bulk"] = self._bulk(conv)
@@ -563,10 +596,13 @@ class C10Machine(Machine):
             if len(self.entries) >= self.config.get("max_converters", MAX_CONVERTERS):
                 return {"skipped": "full"}
             try:
-                conv = c.Converter(tokens.as_container(op.get("container", "list"), [c.Record(**r) for r in op["records"]]),
-                                   delimiter=op.get("delimiter", ":"))
+                cls = self._root_class(op.get("cls", "base"))
+                conv = cls(tokens.as_container(op.get("container", "list"), [c.Record(**r) for r in op["records"]]),
+                           delimiter=op.get("delimiter", ":"))
             except Exception:  # noqa: BLE001 - building roots is not what this property is about
                 return {"skipped": "invalid records"}
+            if op.get("cls", "base") != "base":
+                self.probe("root_of_a_converter_subclass")
             h = self._add(conv, [], "new", op.get("out"), cold=bool(op.get("cold")))
             self.event("new")
             if len(op["records"]) >= 8:
@@ -628,7 +664,9 @@ class C10Machine(Machine):
             elif kind == "discover":
                 dkw = {"delimiters": op["delimiters"]} if op.get("delimiters") else {}
                 uris = list(op["uris"])
-                uarg = {"set": set(uris), "generator": (u for u in uris), "tuple": tuple(uris)}.get(op.get("arg_shape"), uris)
+                # (a set-like view with a fixed iteration order: discover may legitimately number what it finds
+                # in the order it is given, and a real set of strings iterates in hash-seed order)
+                uarg = {"set": dict.fromkeys(uris).keys(), "generator": (u for u in uris), "tuple": tuple(uris)}.get(op.get("arg_shape"), uris)
                 result = discovery.discover(uarg, cutoff=op.get("cutoff"),
                                             metaprefix=op.get("metaprefix", "ns"), converter=inputs[0], **dkw)
             else:
@@ -878,7 +916,10 @@ class C10Machine(Machine):
                     # the Record class does not reproduce the input's records from their data (it drops or
                     # normalises something that only other routes can put there): no faithful reference
                     raise ValueError("records do not round-trip")
-                ref = c.Converter(robjs, delimiter=base["delimiter"])
+                try:
+                    ref = type(ae.conv)(robjs, delimiter=base["delimiter"])      # (the input's own class)
+                except TypeError:
+                    ref = c.Converter(robjs, delimiter=base["delimiter"])
                 if sorted((observe.record_dump(r) for r in ref.records), key=observe.record_key) != \
                         sorted(base["records"], key=observe.record_key):
                     # (the constructor made something else of the records - say, sorted their synonym lists)
